@@ -25,7 +25,8 @@ type TagStep struct {
 // C15Script is a generated case.
 type C15Script struct {
 	Cfg   SessCfg   `json:"cfg"`
-	Own   []uint32  `json:"own"` // values served to the victim's instance-tag draws
+	Own   []uint32  `json:"own"`            // values served to the victim's instance-tag draws
+	Lazy  bool      `json:"lazy,omitempty"` // the victim has not generated its own tag before the first message arrives
 	Steps []TagStep `json:"steps"`
 }
 
@@ -37,6 +38,9 @@ func (r *c15run) tagOf(class, salt int) uint32 {
 	case 1:
 		return uint32(1 + salt%0xff)
 	case 2:
+		if !r.ownKnown {
+			return 0x6000 + uint32(salt) // the victim has no tag yet: any valid tag is "somebody else's"
+		}
 		return r.m.A.C.GetOurInstanceTag()
 	case 3:
 		return r.m.R.OurTag
@@ -49,14 +53,15 @@ func (r *c15run) tagOf(class, salt int) uint32 {
 }
 
 type c15run struct {
-	m     *Mix
-	o     *sim.Outcome
-	other *ref.Party // a second client instance of the peer's account
-	bound uint32
-	hits  int
-	nText int
-	sentR []string
-	gotA  []string
+	m        *Mix
+	o        *sim.Outcome
+	other    *ref.Party // a second client instance of the peer's account
+	bound    uint32
+	ownKnown bool
+	hits     int
+	nText    int
+	sentR    []string
+	gotA     []string
 }
 
 func malformedTags(st, rt uint32) bool { return st < 0x100 || (rt > 0 && rt < 0x100) }
@@ -76,7 +81,10 @@ func (r *c15run) checkExtract(wire []byte, wantOK bool, st, rt uint32) {
 func (r *c15run) deliverHostile(wire []byte, st, rt uint32, what string) {
 	v := r.m.A
 	before := v.C.GetTheirInstanceTag()
-	own := v.C.GetOurInstanceTag()
+	own := uint32(0)
+	if r.ownKnown {
+		own = v.C.GetOurInstanceTag()
+	}
 	c := r.m.AReceive(wire)
 	// replies to hostile messages never reach the genuine peer in this world
 	r.m.QtoR = nil
@@ -133,9 +141,15 @@ func runC15(sc *C15Script) *sim.Outcome {
 	for _, t := range sc.Own {
 		m.A.R.Force4 = append(m.A.R.Force4, ref.PutU32(nil, t))
 	}
-	own := m.A.C.GetOurInstanceTag()
-	if own < 0x100 {
-		return o.Fail("C15/own-tag", "the conversation chose instance tag %#x for itself (randomness offered %v)", own, sc.Own)
+	own := uint32(0)
+	if !sc.Lazy {
+		own = m.A.C.GetOurInstanceTag()
+		r.ownKnown = true
+		if own < 0x100 {
+			return o.Fail("C15/own-tag", "the conversation chose instance tag %#x for itself (randomness offered %v)", own, sc.Own)
+		}
+	} else {
+		o.Class("own-tag-not-yet-generated")
 	}
 	for _, t := range sc.Own {
 		if t < 0x100 {
@@ -195,6 +209,11 @@ func runC15(sc *C15Script) *sim.Outcome {
 			}
 			established = true
 			r.bound = m.R.OurTag
+			r.ownKnown = true
+			own = m.A.C.GetOurInstanceTag()
+			if own < 0x100 {
+				return o.Fail("C15/own-tag", "the conversation chose instance tag %#x for itself (randomness offered %v)", own, sc.Own)
+			}
 			for _, w := range m.Seen {
 				if w.From == 0 && w.Raw != nil {
 					r.checkExtract(w.Wire, true, w.Hdr.Sender, w.Hdr.Recv)
@@ -292,7 +311,7 @@ func TestProp_C15_Tags(t *testing.T) {
 	defer sim.MarkCompleted("C15tags", false)
 	kinds := []string{"hostile", "hostile", "hostile", "handshake", "handshake", "text", "text", "vsend", "fake", "fake", "fake", "frag", "frag", "extract"}
 	rapid.Check(t, func(rt *rapid.T) {
-		sc := &C15Script{Cfg: genSessCfg(rt)}
+		sc := &C15Script{Cfg: genSessCfg(rt), Lazy: rapid.IntRange(0, 2).Draw(rt, "lazy") == 0}
 		sc.Cfg.FragA, sc.Cfg.FragB = 0, 0
 		nOwn := rapid.IntRange(0, 3).Draw(rt, "nown")
 		for i := 0; i < nOwn; i++ {
@@ -320,11 +339,16 @@ func TestProp_C15_Matrix(t *testing.T) {
 				{{K: "handshake", M: 1}, {K: "frag", ST: st, RT: rt}, {K: "text"}},
 				{{K: "handshake"}, {K: "hostile", ST: st, RT: rt, M: 2}, {K: "text"}},
 			} {
-				idx++
-				if idx%sn != si {
-					continue
+				for _, lazy := range []bool{false, true} {
+					if lazy && shape[0].K == "handshake" {
+						continue
+					}
+					idx++
+					if idx%sn != si {
+						continue
+					}
+					sim.Judge(t, "C15matrix", &C15Script{Cfg: SessCfg{V: 3, SeedA: 500, SeedB: 601, KeyA: 2, KeyB: 5}, Steps: shape, Lazy: lazy})
 				}
-				sim.Judge(t, "C15matrix", &C15Script{Cfg: SessCfg{V: 3, SeedA: 500, SeedB: 601, KeyA: 2, KeyB: 5}, Steps: shape})
 			}
 		}
 	}
